@@ -938,6 +938,15 @@ def history_records(H, hid=1):
     # `built`: the coordinates the caller's grid holds BY CONSTRUCTION (built, then derived by the caller) -- computed on the
     # lattice, never read back from the object, so that an object corrupted by an earlier call cannot excuse a later one
     built = np.array(cur, dtype=float) * tau
+    # an item assignment must not create two equal 2D coordinates (the table function identifies a point by its coordinates):
+    # where a randomly chosen value collides with another point of the grid, it is moved on
+    sim = [list(p) if gk != "g1d" else p for p in cur]
+    for c in H["calls"]:
+        if c["api"] == "derive":
+            if c["op"][0] == 3 and gk != "g1d":
+                while [c["op"][2], c["op"][3]] in [p for i, p in enumerate(sim) if i != c["op"][1]]:
+                    c["op"][2] += 1
+            sim = _derive_units(sim, c["op"], gk)
     ops = []
     confs = []
     u, w = list(H["u"]), H["w"]
